@@ -22,8 +22,10 @@ package main
 // an Append while Run is not receiving (before Run, while it stops, after it ended) parks in Runner.Next after having
 // queued its object — the harness waits for the queue length (overlay export VerifPendingLen, read under the batcher's
 // mutex) to grow; a Close while a runner call is parked waits for that call — the harness waits until the Go runtime
-// reports the Close goroutine in "chan receive" (runtime.Stack), i.e. past its stop request, so that the loop has taken
-// the request before the parked call is told to return.  Whatever else happens (a callback nobody expected, a second
+// reports the Close goroutine in "chan receive" (runtime.Stack), i.e. past its stop request, AND the goroutine of Run
+// parked outside its loop's select (inside the wait for the worker), in one consistent snapshot, twice in a row: the
+// loop has taken the request and nothing moves before the parked call is told to return.  A Close that comes back
+// although the call is still parked shows as the step's "close":"returned" next to a batch that has not returned.  Whatever else happens (a callback nobody expected, a second
 // call after an error) is an event like any other: it is recorded in the step in which it arrives, where the
 // comparison with the model and the oracle see it.  After a case the calls still parked on an ended Run are served by
 // the overlay export VerifUnpark (only so that goroutines do not pile up in the process).
@@ -85,6 +87,7 @@ type batHarness struct {
 	appRet    int
 	nAcks     int
 	nRets     int
+	runGID    int64 // goroutine of Run
 
 	stepEv  []any
 	batches []any
@@ -247,6 +250,67 @@ func goroutineState(gid int64) string {
 	}
 }
 
+// goroutineStates: the states of several goroutines taken from ONE dump (a consistent snapshot).
+func goroutineStates(gids ...int64) []string {
+	for {
+		n := runtime.Stack(batStackBuf, true)
+		if n < len(batStackBuf) {
+			dump := batStackBuf[:n]
+			out := make([]string, len(gids))
+			for i, gid := range gids {
+				key := []byte("goroutine " + strconv.FormatInt(gid, 10) + " [")
+				var rest []byte
+				if bytes.HasPrefix(dump, key) {
+					rest = dump[len(key):]
+				} else if j := bytes.Index(dump, append([]byte("\n"), key...)); j >= 0 {
+					rest = dump[j+1+len(key):]
+				} else {
+					continue
+				}
+				if k := bytes.IndexAny(rest, "],"); k >= 0 {
+					out[i] = string(rest[:k])
+				}
+			}
+			return out
+		}
+		batStackBuf = make([]byte, 2*len(batStackBuf))
+	}
+}
+
+// waitCloseDecided: Close was called while a runner call is parked.  Either it waits for that call — its goroutine is past the stop
+// request ("chan receive") and the goroutine of Run is parked somewhere else than in its loop's select (inside the wait for the worker),
+// seen twice in a row in consistent snapshots: nothing can move before the harness lets the call return — or it comes back although the
+// call is still parked (the event "closeret" arrives: recorded like every other event, judged by the model comparison and the oracle).
+func (h *batHarness) waitCloseDecided(closeGID int64) bool {
+	if h.stuck != "" {
+		return false
+	}
+	t0 := time.Now()
+	stable := 0
+	for k := 0; ; k++ {
+		h.drain()
+		if h.closeRet {
+			return true
+		}
+		runtime.Gosched()
+		st := goroutineStates(closeGID, h.runGID)
+		if st[0] == "chan receive" && st[1] != "" && st[1] != "runnable" && st[1] != "running" && st[1] != "select" {
+			if stable++; stable >= 2 {
+				return true
+			}
+		} else {
+			stable = 0
+		}
+		if time.Since(t0) > batWatchdog {
+			h.stuck = "watchdog: Close neither returns nor waits for the parked runner call (Close: " + st[0] + ", Run: " + st[1] + ")"
+			return false
+		}
+		if k > 20 {
+			time.Sleep(20 * time.Microsecond)
+		}
+	}
+}
+
 // waitParked waits until goroutine gid is parked in the given runtime state (it will stay there: nobody serves it).
 func (h *batHarness) waitParked(what string, gid int64, state string) bool {
 	if h.stuck != "" {
@@ -319,7 +383,9 @@ func (h *batHarness) do(op J) J {
 			break
 		}
 		h.run = "running"
+		rg := make(chan int64, 1)
 		go func() {
+			rg <- curGID()
 			defer func() {
 				if e := recover(); e != nil {
 					h.send(batEvent{kind: "died", why: fmt.Sprint(e)})
@@ -329,6 +395,7 @@ func (h *batHarness) do(op J) J {
 			}()
 			h.b.Run(h.ctx)
 		}()
+		h.runGID = <-rg
 		if h.waitFor("the Append calls parked before Run do not return", func() bool { return h.appRet >= h.nAppended }) && h.backlog() > 0 {
 			h.waitFor("objects were queued before Run, the runner is not entered", func() bool { return h.inCall })
 		}
@@ -381,7 +448,7 @@ func (h *batHarness) do(op J) J {
 		case wasRunning && !parked:
 			h.waitFor("Close with no runner call parked: Run and Close do not return", func() bool { return h.run != "running" && h.closeRet })
 		case wasRunning:
-			h.waitParked("Close neither returns nor waits for its stop request to be served", <-gid, "chan receive")
+			h.waitCloseDecided(<-gid)
 		default:
 			// the loop has died: nobody will serve the stop request, and nothing else depends on how far the call got
 			<-gid
